@@ -29,3 +29,17 @@ def tjobs(prop_func, tname, tier, fixed=None, name=None, timeout=150, note="", f
                       func=prop_func, params=params, pre=pre, fixed=fx, timeout=timeout,
                       note=note or f"template {tname}: leaves {[n for n, _, _ in sym]} symbolic", functions=list(functions), base=base or fn))
     return out
+
+
+def window(tname, tier, width=1, wide=()):
+    """shrink dictionary: every leaf of the template restricted to [base, base+width] where base is 0 (or the
+    lower end of its range if that is positive; 2 for 'size'); leaves named in `wide` keep their full range."""
+    out = {}
+    for n, lo, hi in ranges(tname, tier):
+        if n in wide:
+            continue
+        base = max(lo, 0) if lo <= 0 <= hi else lo
+        if n == "size":
+            base = min(hi, 2)
+        out[n] = (base, min(hi, base + width))
+    return out
